@@ -123,6 +123,16 @@ def canon_tris(T):
     return np.array(out)
 
 
+def _in_library(e):
+    """True when some frame of the traceback belongs to trimesh (the library raised, not the harness alone)."""
+    tb = e.__traceback__
+    while tb is not None:
+        if "/repo/trimesh/" in tb.tb_frame.f_code.co_filename:
+            return True
+        tb = tb.tb_next
+    return False
+
+
 class C10(World):
     ID = "C10"
     RUNS = {"quick": 40000, "thorough": 1500000}
@@ -220,7 +230,7 @@ class C10(World):
             if kind == "convert_units":
                 op["to"] = rng.choice(["mm", "in", "feet"])
             if kind == "add_scene":
-                op["other"] = [{"geom": self._gen_geom(rng, cfg), "gname": rng.choice(["g0", "g1", "y0"]), "node": rng.choice(["n0", "m0", "m1"]), "matrix": mx.make(rng, "rigid").tolist()} for _ in range(rng.randint(1, 2))]
+                op["other"] = [{"geom": self._gen_geom(rng, cfg), "gname": rng.choice(["g0", "g1", "y0", "g0_1", "g1_1"]), "node": rng.choice(["n0", "n1", "m0", "m1", "n0_1", "n1_1", "n0_2", "m0_1"]), "matrix": mx.make(rng, "rigid").tolist()} for _ in range(rng.randint(1, 3))]
             ops.append(op)
         for _ in range(2):
             ops.append({"op": "read", "obs": rng.choice(cfg["reads"]), "rs": rng.randrange(2**31)})
@@ -343,6 +353,19 @@ class C10(World):
         return f"i{len(inst)}g{len(model.geoms)}d{model.forest.depth()}{''.join(k[0] for k in kinds)}"
 
     def _read(self, scene, model, obs, st, ctx):
+        from sim.core.engine import HarnessError, Violation
+
+        try:
+            return self._read_checked(scene, model, obs, st, ctx)
+        except (Violation, Inapplicable, HarnessError):
+            raise
+        except Exception as e:
+            # every read below is guarded so that the model defines the quantity; a read that raises there is a wrong answer
+            if not _in_library(e):
+                raise
+            ctx.fail("read-raises", obs, f"{type(e).__name__}: {e}")
+
+    def _read_checked(self, scene, model, obs, st, ctx):
         pl = model.placements()
         allV = np.vstack([p[1] for p in pl.values() if len(p[1])]) if any(len(p[1]) for p in pl.values()) else np.zeros((0, 3))
         T = placed_triangles(pl)
@@ -422,7 +445,10 @@ class C10(World):
                 raise Inapplicable()
             from scipy.spatial import ConvexHull
 
-            h = ConvexHull(allV)
+            try:
+                h = ConvexHull(allV)
+            except Exception:
+                raise Inapplicable()  # degenerate point set: no hull is defined
             got = scene.convex_hull
             bad = same(float(got.volume), float(h.volume), 1e-7, "hull volume") or same(got.bounds, np.array([allV.min(axis=0), allV.max(axis=0)]), 1e-9, "hull bounds")
             if bad:
